@@ -73,12 +73,21 @@ class _Norm(ast.NodeTransformer):
                 (k > 0 and isinstance(s, ast.Expr) and isinstance(s.value, ast.Constant)))]
         stmts = keep if keep else stmts[:1]
         # N7: a guard clause `if c: <...; return/raise/continue/break>` followed by more statements is the if/else it abbreviates
+        EXIT = (ast.Return, ast.Raise, ast.Continue, ast.Break)
         for k, st in enumerate(stmts[:-1]):
-            if isinstance(st, ast.If) and not st.orelse and st.body and isinstance(st.body[-1], (ast.Return, ast.Raise, ast.Continue, ast.Break)):
-                rest = self._block(stmts[k + 1:])
+            if not (isinstance(st, ast.If) and st.body): continue
+            b_exits = isinstance(st.body[-1], EXIT)
+            e_exits = bool(st.orelse) and isinstance(st.orelse[-1], EXIT)
+            if b_exits and not e_exits:
+                # what follows only runs when the test is false: it belongs to the else branch
+                rest = self._block(list(st.orelse) + stmts[k + 1:])
                 new = ast.copy_location(ast.If(test=st.test, body=st.body, orelse=rest), st)
-                new = self.visit_If_only(new)
-                stmts = stmts[:k] + [new]
+                stmts = stmts[:k] + [self.visit_If_only(new)]
+                break
+            if e_exits and not b_exits:
+                rest = self._block(list(st.body) + stmts[k + 1:])
+                new = ast.copy_location(ast.If(test=st.test, body=rest, orelse=st.orelse), st)
+                stmts = stmts[:k] + [self.visit_If_only(new)]
                 break
         # N6: a temporary bound once to an expression and used once, as the first thing the next statement evaluates
         stmts = self._inline_temps(stmts)
@@ -114,6 +123,15 @@ class _Norm(ast.NodeTransformer):
                     out[i:i + 2] = [new]
                     changed = True
                     break
+                # a plain copy of another local / a constant can be substituted wherever the next statement uses it
+                if isinstance(s.value, (ast.Name, ast.Constant)):
+                    uses = [x for x in ast.walk(val) if isinstance(x, ast.Name) and x.id == t and isinstance(x.ctx, ast.Load)]
+                    inner_scopes = any(isinstance(x, (ast.Lambda, ast.GeneratorExp, ast.ListComp, ast.SetComp, ast.DictComp)) for x in ast.walk(val))
+                    if len(uses) == 1 and not inner_scopes:
+                        new = _Replace(uses[0], s.value).visit(nxt)
+                        out[i:i + 2] = [new]
+                        changed = True
+                        break
         return out
 
     def visit_FunctionDef(self, node):
@@ -159,8 +177,40 @@ def _first_leaf(e):
 
 
 class _Replace(ast.NodeTransformer):
-    def __init__(self, target, repl): self.target, self.repl = target, repl
+    def __init__(self, target, repl, by_identity=False): self.target, self.repl, self.by_identity = target, repl, by_identity
     def visit_Name(self, n): return self.repl if n is self.target else n
+    def visit_Call(self, n):
+        if self.by_identity and n is self.target: return self.repl
+        self.generic_visit(n); return n
+
+
+def _first_call(e):
+    """the first Call the expression evaluates, provided nothing with a possible effect is evaluated before it"""
+    if isinstance(e, ast.Call):
+        inner = None
+        for part in ([e.func.value] if isinstance(e.func, ast.Attribute) else []) + list(e.args):
+            inner = _first_call(part)
+            if inner is not None: return inner
+            if not _simple(part): return None
+        return e
+    if isinstance(e, (ast.Tuple, ast.List)):
+        for x in e.elts:
+            c = _first_call(x)
+            if c is not None: return c
+            if not _simple(x): return None
+        return None
+    if isinstance(e, ast.BinOp):
+        c = _first_call(e.left)
+        if c is not None: return c
+        return _first_call(e.right) if _simple(e.left) else None
+    if isinstance(e, ast.Compare):
+        c = _first_call(e.left)
+        if c is not None: return c
+        return _first_call(e.comparators[0]) if _simple(e.left) and len(e.comparators) == 1 else None
+    if isinstance(e, ast.UnaryOp): return _first_call(e.operand)
+    if isinstance(e, ast.Subscript): return _first_call(e.value)
+    if isinstance(e, ast.Attribute): return _first_call(e.value)
+    return None
 
 
 def normalise(tree):
@@ -358,7 +408,28 @@ class _Inliner(object):
         if isinstance(st, ast.Expr) and isinstance(st.value, ast.Call): call, kind = st.value, 'expr'
         elif isinstance(st, ast.Assign) and isinstance(st.value, ast.Call): call, kind, target = st.value, 'assign', st.targets
         elif isinstance(st, ast.Return) and isinstance(st.value, ast.Call): call, kind = st.value, 'return'
-        if call is None: return None
+        if call is None or self.resolve(call, clsname)[0] is None:
+            # a statement helper whose call is the first thing the statement evaluates, inside a larger expression
+            # (`return self._checked(name, n), i`): hoist it into a temporary, then splice as an assignment
+            val = getattr(st, 'value', None)
+            if isinstance(st, (ast.Return, ast.Assign, ast.Expr)) and val is not None:
+                fc = _first_call(val)
+                if fc is not None and fc is not val:
+                    helper, recv = self.resolve(fc, clsname)
+                    body = _body(helper) if helper is not None else None
+                    if helper is not None and not (len(body) == 1 and isinstance(body[0], ast.Return)):
+                        m = self.bind(helper, fc, recv)
+                        if m is not None:
+                            tmp = '_h%d_ret' % (self.count + 1)
+                            rep = self.splice(helper, m, 'assign', [ast.Name(id=tmp, ctx=ast.Store())])
+                            if rep is not None:
+                                st2 = _Replace(fc, ast.Name(id=tmp, ctx=ast.Load()), by_identity=True).visit(st)
+                                out = rep + [st2]
+                                for r in out:
+                                    for x in ast.walk(r):
+                                        if isinstance(x, (ast.stmt, ast.expr)) and not hasattr(x, 'lineno'): ast.copy_location(x, st)
+                                return out
+            return None
         helper, recv = self.resolve(call, clsname)
         if helper is None: return None
         m = self.bind(helper, call, recv)
